@@ -285,6 +285,22 @@ theorem no_overwrite {w : W} {t : STxn} {idx : List Int} {ux : List Nat} (i : In
     rw [hs] at this; injection this with this; exact hnn this
   · subst a; cases hi
 
+/-- **resubmit_refused**: handing the result of a successful request back with the SAME non-empty index
+list is an error, never a further signing (in particular a list that names only already-signed
+inputs is not reinterpreted as "sign everything"; Visor.WalletSignTransaction passes the list on
+unchanged) -/
+theorem resubmit_refused {w : W} {t t' : STxn} {idx : List Int} {ux : List Nat}
+    (h : signTxn w t idx ux = .ok t') (hne : idx ≠ []) : ∀ t'', signTxn w t' idx ux ≠ .ok t'' := by
+  obtain ⟨_, _, _, _, _, _, S, hS, _, _, _, hnew⟩ := signTxn_ok h
+  rcases hS with ⟨_, b⟩ | ⟨a, _⟩
+  · cases idx with
+    | nil => exact absurd rfl hne
+    | cons i r =>
+      have hi : i.toNat ∈ S := by rw [b]; simp
+      obtain ⟨k, _, _, hk⟩ := hnew _ hi
+      exact no_overwrite i (by simp) _ hk (by simp)
+  · exact absurd a hne
+
 /-- the signature scheme: a signature made with key `k` over `(inner, uxid)` verifies for the
 address of `k` -/
 def SigScheme (addrOf : Nat → Nat) (verify : Nat → Sig → Nat → Nat → Bool) : Prop :=
